@@ -140,14 +140,24 @@ pub fn gen_sys(ctx: &mut Context, rng: &mut SmallRng, cfg: &SysCfg, tag: &str) -
             Type::BV(w) => {
                 let init = match rng.random_range(0..if cfg.all_init { 2 } else { 4 }) {
                     0 => { let v = rnd_bv(rng, w); Some(ctx.bv_lit(&v)) }
-                    1 if !earlier.is_empty() => { let e = gen_bv(ctx, rng, &ecfg, w, 2, &earlier, &[]); Some(e) }
+                    1 if !earlier.is_empty() => {
+                        // sometimes a bare earlier state of the same width (with `next` = the same node below: a delayed copy)
+                        let same: Vec<ExprRef> = earlier.iter().cloned().filter(|e| e.get_bv_type(ctx) == Some(w)).collect();
+                        if !same.is_empty() && rng.random_range(0..3) == 0 { Some(*same.choose(rng).unwrap()) }
+                        else { let e = gen_bv(ctx, rng, &ecfg, w, 2, &earlier, &[]); Some(e) }
+                    }
                     1 => Some(ctx.zero(w)),
                     2 => { let v = rnd_bv(rng, w); Some(ctx.bv_lit(&v)) }
                     _ => None,
                 };
-                let next = match rng.random_range(0..10) {
+                // a state whose init reads other states is, one time in three, re-loaded with that very node every cycle
+                let reads_state = init.map(|i| !symbols_of(ctx, &[i]).is_empty()).unwrap_or(false);
+                let next = match if reads_state && rng.random_range(0..3) == 0 { 2 } else { rng.random_range(0..10) } {
                     0 if !cfg.all_next => None,
                     1 => Some(s), // constant state
+                    // next is the very node that is also the init expression (a state re-loaded with its reset
+                    // expression every cycle: a constant for a literal, a delayed copy for an earlier state)
+                    2 if init.is_some() => init,
                     _ => Some(draw(ctx, rng, w, &all_syms, &arr_syms, &mut pool)),
                 };
                 (init, next)
